@@ -7,7 +7,7 @@ import os
 import shutil
 import subprocess
 
-SEARCHABLE = ('C01', 'C02', 'C05', 'C07', 'C08', 'C11', 'C12', 'C13', 'C14', 'C15', 'C16', 'C17')
+SEARCHABLE = ('C01', 'C02', 'C03', 'C05', 'C07', 'C08', 'C11', 'C12', 'C13', 'C14', 'C15', 'C16', 'C17')
 
 
 def _build(verif, repo):
